@@ -38,14 +38,14 @@ for sid in sorted(os.listdir(os.path.join(ROOT, "seeded"))):
     meta = {
         "id": sid,
         "breaks_property": prop,
-        "round": {"a": 1, "b": 1, "c": 2, "d": 2, "e": 3, "f": 3, "g": 4, "h": 4}[sid[3]],
+        "round": {"a": 1, "b": 1, "c": 2, "d": 2, "e": 3, "f": 3, "g": 4, "h": 4, "i": 5, "j": 5}[sid[3]],
         "origin": "independent sub-agent given only the property text and its own scratch worktree of /repo (nothing from /verif)" + ("" if sid[3] in "ab" else "; later rounds: plus one-paragraph descriptions of the earlier changes of that property, to avoid repeats"),
         "ported_after_fix_commits": sid in PORTED,
         "passes_existing_suite_on_final_tree": sid not in CAUGHT_BY_SUITE_ON_FINAL_TREE,
         "needs_in_order_to_manifest": needs[:3] if needs else [" ".join(notes.split())[:600]],
         "demonstration": {"files": sorted(f for f in os.listdir(d) if f.endswith("_test.go")), "command": demo},
         "confirmed_by": "tools/verify_seed.sh in a fresh scratch worktree: patch applies to HEAD, `go build ./...` and `go build -tags verif ./...` succeed, the unedited suite passes with the patch (`go test -count=1 -skip TestSeed ./...`), the demonstration passes without the patch and fails with it",
-        "checks_run": "tools/matrix.sh on a copy of /repo: patch applied, every quick check run, patch reverted",
+        "checks_run": ("tools/seedtest.sh on /repo itself: patch applied, the quick checks named below run, patch reverted (round 5: not every check was run against it)" if sid[3] in "ij" else "tools/matrix.sh on a copy of /repo: patch applied, every quick check run, patch reverted"),
         "detected_by_quick_checks": {k: v for k, v in sorted(det.items()) if v.startswith("VIOLATION")},
         "detected_by_own_property_check": prop in det and det[prop].startswith("VIOLATION"),
     }
